@@ -418,7 +418,7 @@ func genRead(t *rapid.T) ReadCase {
 		csids = d
 	}
 	ngroups := rapid.IntRange(1, 5).Draw(t, "ngroups")
-	max := maxLen() / 4
+	max := maxLen() / 2
 	for g := 0; g < ngroups; g++ {
 		var grp Group
 		perm := rapid.Permutation(csids).Draw(t, "perm")
